@@ -12,6 +12,8 @@ from common import Stream, clist, cnat, main
 def add_dead(rng, d):
     """insert empty models / all-dead solvers at random places of a hierarchy description"""
     d = copy.deepcopy(d)
+    for df in d["defs"]:
+        df.pop("mon", None)          # child indices are about to shift; monitors are not this property's subject
     # definitions that are dead solvers (only empties / dead solvers inside, nothing exposed)
     ndead = rng.choice([0, 1, 1, 2])
     dead_defs = []
